@@ -545,6 +545,14 @@ def run(ctx):
     ctx.extra["trusted"] = ["vermouth read_itp / Block.to_molecule (instances alias the block's parameter lists)",
                             "combination-rule arithmetic and the float sixth root (checked through the identities "
                             "4 eps sig^6 = C6, 4 eps sig^12 = C12 at 1e-9)"]
+    ctx.extra["explanation"] = (
+        "Proof level: the dihedral theorems (most specific, found-iff, direction symmetry, all 16 masks) follow from three "
+        "`decide` facts about the pattern list TRANSLATED from topology.match_dihedral_interaction_types plus a generic "
+        "analysis of the search loop; exact/reversed lookup, macro substitution, multi-term expansion into every instance "
+        "(all k, n), the pair-table clauses and the sigma/epsilon identities (over the reals) are proved for all inputs.  "
+        "The hand-written loop model is tied by the correspondence (direct calls of the real search on random tables over all "
+        "masks and both directions, and whole topologies through the real reader + preprocess); the oracle is the Lean "
+        "specification (bestKeys/specVerdict/pairsVerdict/sigEpsResidual) evaluated on what the real code wrote.")
     ctx.assumptions += ["atoms of a moleculetype are numbered 1..n consecutively (GROMACS requires it); with gaps the "
                         "expanded terms would carry block keys instead of molecule indices",
                         "no interaction is written with a macro as its only parameter",
